@@ -229,6 +229,43 @@ def m_strip_prefix(ex, st, callee, args, dest_ty):
     raise MirUnsupported("strip_prefix(%r) on %r" % (pat, s))
 
 
+def m_slice_atoms(ex, st, callee, args, dest_ty):
+    """&s[a..b] / &s[..b] / &s[a..] on a structured string with concrete bounds (byte offsets = character offsets: the atoms are ASCII)"""
+    s = deref(ex, st, args[0])
+    rng = args[1]
+    kind = re.search(r"Index<(?:std::ops::)?(RangeFrom|RangeTo|Range)<usize>>", callee).group(1)
+    atoms = split_lits(normalize(atoms_of(s)))
+    total = 0
+    for a in atoms:
+        ln = ex.concrete(atom_len(a))
+        if ln is None:
+            raise MirUnsupported("slice of a string with an atom of symbolic length")
+        total += ln
+    lo = ex.concrete(rng.fields[0].e) if kind in ("RangeFrom", "Range") else 0
+    hi = ex.concrete(rng.fields[-1].e) if kind in ("RangeTo", "Range") else total
+    if lo is None or hi is None:
+        raise MirUnsupported("slice with symbolic bounds on a structured string")
+    if lo > hi or hi > total:
+        yield Outcome("panic", st, msg="byte index out of range of the string (%s)" % callee)
+        return
+    out, pos = [], 0
+    for a in atoms:
+        ln = ex.concrete(atom_len(a))
+        s0, s1 = max(lo, pos), min(hi, pos + ln)
+        if s0 < s1:
+            if a[0] == "lit":
+                out.append(a)
+            elif a[0] == "digits":
+                k = a[2]
+                i0, i1 = s0 - pos, s1 - pos          # digits i0..i1 of the k digits
+                n = (a[1] / (10 ** (k - i1))) % (10 ** (i1 - i0))
+                out.append(("digits", z3.simplify(n), i1 - i0))
+            else:
+                raise MirUnsupported("slice through atom %r" % (a,))
+        pos += ln
+    yield st, Ref(ex.new_cell(st, mk(out), "strslice"))
+
+
 ATOM_MODELS = [
     (R(r"^core::str::<impl str>::contains::<(&str|char)>$"), m_contains),
     (R(r"^core::str::<impl str>::split::<(&str|char)>$"), m_split),
@@ -239,4 +276,5 @@ ATOM_MODELS = [
     (R(r"^<Map<std::ops::Range<usize>, .*> as Iterator>::collect::<String>$"), m_map_collect_string),
     (R(r"^format$|^std::fmt::format$|^alloc::fmt::format$"), m_format_atoms),
     (R(r"^core::str::<impl str>::strip_prefix::<(&str|char)>$"), m_strip_prefix),
+    (R(r"^<(str|String|std::string::String) as Index<(std::ops::)?Range(From|To)?<usize>>>::index$|^core::str::traits::<impl Index<.*Range(From|To)?<usize>> for str>::index$"), m_slice_atoms),
 ]
